@@ -225,6 +225,8 @@ def small_tree_cases():
 def check_match(case, ctx):
     from vp.gen import filesets as G
     from typhon.files import FileSet
+    if case.get("boundary_focus"):
+        ctx.label("files-reach-over-a-change-of-the-day")
     with G.Sandbox() as box:
         pops = []
         sets = []
